@@ -1,5 +1,5 @@
 SPECIFICATION Spec
-CONSTANT Fams = {"exp1", "exp2", "ps2", "multi", "eof", "jobs", "read", "modes", "call"}
+CONSTANT Fams = {"exp1", "exp2", "ps2", "multi", "eof", "jobs", "read", "modes", "call", "guard"}
 CONSTANT Deep = 1
 CONSTANT Variant = "spec"
 INVARIANT Emit
